@@ -100,6 +100,22 @@ def determinism(args):
         for i in diff[:3]:
             print('   run', i, [v.get(i) for v in variants])
         bad += len(diff)
+    # harness parallelism must not matter: the same batch with 1 and with 16
+    # harness workers gives the same per-run digests
+    import importlib
+    for prop in props:
+        check = importlib.import_module('checks.' + prop.lower())
+        cfg = dict(check.TIERS['quick'])
+        m = min(n, 32)
+        a = core.run_batch(check, cfg, args.seed, m, 1, 3600,
+                           cfg.get('wall_cap', 300))
+        b = core.run_batch(check, cfg, args.seed, m, 16, 3600,
+                           cfg.get('wall_cap', 300))
+        same = a['digs'] == b['digs'] and len(a['digs']) == m
+        print('determinism {}: --jobs 1 vs --jobs 16 on {} runs: {}'.format(
+            prop, m, 'equal' if same else 'DIFFERENT'), flush=True)
+        if not same:
+            bad += 1
     print('determinism: {} runs, {} divergent'.format(total, bad))
     return 0 if bad == 0 else 2
 
